@@ -56,7 +56,7 @@ fn profile(property: &str) -> Profile {
         "C10" => Profile { force_persistent: Some(true), reopen: 3, ..base },
         "C05" => Profile { force_persistent: Some(true), reopen: 5, tight_memory: 0, ..base },
         "C11" => Profile { force_ttl: Some(true), ttl_ops: 40, time_ops: 25, frozen_clock: 75, ..base },
-        "C12" => Profile { explicit_ts: 55, extreme_ts: true, reopen: 8, time_ops: 12, ..base },
+        "C12" => Profile { explicit_ts: 55, extreme_ts: true, reopen: 8, time_ops: 12, tight_memory: 35, ..base },
         "C13" => Profile { tight_memory: 60, ..base },
         "C14" => Profile { range: 30, ..base },
         "C16" => Profile {
@@ -433,8 +433,18 @@ fn run_once(
                     report.count(&format!("err.{e:?}").chars().take(40).collect::<String>(), 1);
                 }
                 if matches!(call, Call::Flush) && res == Res::Err(crate::model::ErrKind::OutOfSpace) {
-                    // legitimate only if some buffered extent really does not fit
-                    match checks::out_of_space_is_justified(&env) {
+                    // Legitimate only if the buffered extents really do not fit. Background
+                    // retirements may free space right after the failing call returned, so the
+                    // verdict is taken at quiescence: let the workers finish, try once more, and
+                    // only a second OutOfSpace with room for everything is spurious.
+                    let _ = env.settle();
+                    let second = env.st().flush();
+                    let verdict = match second {
+                        Ok(()) => Ok(()),
+                        Err(feoxdb::FeoxError::OutOfSpace) => checks::out_of_space_is_justified(&env),
+                        Err(e) => Err(crate::model::Fail { rule: "flush-failed", detail: format!("retrying flush after OutOfSpace failed with {e:?}") }),
+                    };
+                    match verdict {
                         Ok(()) => {
                             report.count("stopped_out_of_space", 1);
                             stopped = true;
